@@ -129,12 +129,24 @@ def run(ctx):
             ctx.count("clean_file_name")
             del created[:]
             hook.on = True
+            # how the caller names the file: absolute path, or relative to the working directory (bare name / ./name)
+            style = rng.choice(["abs", "abs", "bare", "dot"])
+            arg = os.path.join(d, name) if style == "abs" else (name if style == "bare" else "./" + name)
+            old_cwd = os.getcwd()
             try:
-                res = misc.clean_file_name(os.path.join(d, name), unique=unique)
+                if style != "abs":
+                    os.chdir(d)
+                    ctx.count("calls_with_a_name_relative_to_the_working_directory")
+                res = misc.clean_file_name(arg, unique=unique)
+                if style != "abs":
+                    res = os.path.join(d, res[2:] if res.startswith("./") else res)       # what the relative result denotes
             except Exception as e:
                 hook.on = False
-                ctx.violation("raises", "clean_file_name raises", {"name": name, "unique": unique, "exc": exc_str(e)})
+                os.chdir(old_cwd)
+                ctx.violation("raises", "clean_file_name raises", {"name": name, "unique": unique, "style": style, "exc": exc_str(e)})
                 continue
+            finally:
+                os.chdir(old_cwd)
             hook.on = False
             if created:
                 ctx.violation("creates-files", "clean_file_name itself created files", {"name": name, "events": created[:5]})
